@@ -1181,6 +1181,65 @@ def clip_flag_history_scenarios(rng, quick, formats):
     return execs
 
 
+def alpha_map_clip_scenarios(rng, quick, formats):
+    """The alpha map of a source or mask is part of that source: a clip carried by the ALPHA-MAP image takes part in the
+       composite region exactly when it is enabled for sources on that image (clip set + set_source_clipping +
+       set_has_client_clip), placed at the alpha origin.  Walked: role x alpha origin (equal / different on source and mask,
+       zero and non-zero in x and y) x the four flag settings on the map x the role's own clip (on / enabled / absent) x
+       request offsets.  A mask whose alpha map has an enabled clip always carries a clip region of its own (see
+       Composite.tla: the combination without one is left out by the statement and not generated)."""
+    W, H = MW, MH
+    amclips = [[[1, 1, 7, 5]], [[0, 0, 4, 6], [6, 1, 11, 4]], [[2, 0, 10, 2], [3, 3, 9, 6]], []]
+    origins = [(0, 0), (2, 0), (0, 3), (-1, 2), (3, -2)]
+    flags = [(1, 1), (1, 0), (0, 1), (0, 0)]
+    execs = []
+    k = 0
+
+    def C(role, clip):
+        return "C %s %d %s" % (role, len(clip), " ".join(str(v) for b in clip for v in b))
+    for fmt in formats:
+        st = min_stride(fmt, W) + (4 if k % 2 else 0)
+        gb, ga = 2 * st + 16, 2 * st + 32
+        for role in ("src", "mask"):
+            other = "mask" if role == "src" else "src"
+            for oi, (ox, oy) in enumerate(origins):
+                for fl in (flags if not quick else [flags[0], flags[(oi % 3) + 1]]):
+                    k += 1
+                    lines = ["R amclip_%s_%s_%d_%d_%d%d_%d" % (fmt, role, ox, oy, fl[0], fl[1], k)]
+                    lines.append("I dst %s %d %d %d %d %d %d" % (fmt, W, H, st, gb, ga, rng.randrange(1 << 30)))
+                    if k % 4 == 0:
+                        lines.append(C("dst", [[0, 0, 9, 6], [10, 1, 12, 5]]))
+                    lines.append("I src bits a8r8g8b8 %d %d %d %d" % (W + 2, H + 2, rng.randrange(1 << 30), k % 2))
+                    lines.append("I mask bits a8r8g8b8 %d %d %d %d" % (W + 2, H + 2, rng.randrange(1 << 30), (k // 2) % 2))
+                    # the role's alpha map, its clip and flags
+                    lines.append("A %s a8 %d %d %d %d" % (role, W + 1, H + 1, ox, oy))
+                    lines.append("CA %s %d %s" % (role, len(amclips[k % 4]), " ".join(str(v) for b in amclips[k % 4] for v in b)))
+                    lines.append("FA %s %d %d" % (role, fl[0], fl[1]))
+                    # the other role: sometimes an alpha map of its own at ANOTHER origin (clip enabled or inert)
+                    if k % 3 == 0:
+                        o2 = origins[(oi + 2) % len(origins)]
+                        lines.append("A %s a8 %d %d %d %d" % (other, W + 1, H + 1, o2[0], o2[1]))
+                        lines.append("CA %s 1 0 1 10 5" % other)
+                        lines.append("FA %s %d %d" % (other, 1, 1 if k % 2 else 0))
+                    # own clips: a mask always has a clip region (any flags); a source in two of three cases
+                    own = [[0, 0, W + 2, H + 2]] if k % 2 else [[1, 0, 11, 6]]
+                    lines.append(C("mask", own))
+                    lines.append("F mask %d %d" % ((1, 1) if k % 3 else (0, 1)))
+                    if k % 3 != 1:
+                        lines.append(C("src", [[0, 1, 12, 7]]))
+                        lines.append("F src %d %d" % ((1, 1) if k % 2 else (1, 0)))
+                    if k % 5 == 0:       # re-attach the same map at another origin: the last origin counts
+                        lines.append("AO %s %d %d" % (role, oy, ox))
+                    lines.append("S")
+                    for off in ((0, 0), (1, -1), (-2, 1)):
+                        for b in ([0, 0, W, H], [-1, -1, W + 1, H + 1], [2, 1, 7, 4]):
+                            a = (b[0] - off[0], b[1] - off[1], b[0] + off[1], b[1] + off[0], b[0], b[1], b[2] - b[0], b[3] - b[1])
+                            lines.append("region %d %d %d %d %d %d %d %d" % a)
+                            lines.append("composite %s %d %d %d %d %d %d %d %d" % ((rng.choice(["SRC", "OVER", "ADD", "IN", "XOR"]),) + a))
+                    execs.append(lines)
+    return execs
+
+
 # ------------------------------------------------------------------------------------------
 
 def entry16(line, k):
@@ -1394,7 +1453,9 @@ def run(prop, args):
             + clip_flag_history_scenarios(rng, quick, [rng.choice(["a8r8g8b8", "r5g6b5"]), "a8"] if quick
                                           else ["a8r8g8b8", "x8r8g8b8", "r5g6b5", "a8", "a4", "r8g8b8"]) \
             + history_scenarios(rng, quick, [rng.choice(["a8r8g8b8", "r5g6b5"]), rng.choice(["a8", "a4", "r8g8b8"])] if quick
-                                else ["a8r8g8b8", "x8r8g8b8", "r5g6b5", "a8", "a4", "a1", "r8g8b8"], 30 if quick else 150)
+                                else ["a8r8g8b8", "x8r8g8b8", "r5g6b5", "a8", "a4", "a1", "r8g8b8"], 30 if quick else 150) \
+            + alpha_map_clip_scenarios(rng, quick, [rng.choice(["a8r8g8b8", "r5g6b5", "a8"])] if quick
+                                       else ["a8r8g8b8", "x8r8g8b8", "r5g6b5", "a8"])
         chk.extra["directed_matrix_executions"] = len(directed)
         nrand = len(execs)
         execs += directed
